@@ -1128,9 +1128,85 @@ pub fn run(args: &Args) {
 // The composed Gallina model `tokenize_model` is run on the same dictionary bytes (trie + word-id table sections),
 // word parameters / word infos, character classes, connection matrix and plugin settings as the real tokenizer and must
 // answer with the same morphemes.  Scope: small generated dictionaries (system, optionally + user), texts of at most 12
-// characters, input-text plugins {none, prolonged-sound-mark collapsing}, OOV {simple; mecab + simple}, every path-rewrite
-// configuration, modes A/B/C.  (DefaultInputTextPlugin / yomigana need the oracle tables of C07's own correspondence.)
+// characters, input-text plugins {none, prolonged-sound-mark collapsing, DefaultInputTextPlugin, both}, OOV {simple;
+// mecab + simple}, every path-rewrite configuration, modes A/B/C.  For DefaultInputTextPlugin the Unicode oracle values
+// (std case mapping, unicode-normalization) of the characters of the case's text are shipped with the case, as C07's own
+// cases do, together with the lines of the test resources' rewrite.def that can apply to the text.
 use sudachi::dic::word_id::WordId;
+use unicode_normalization::{is_nfkc_quick, IsNormalized, UnicodeNormalization};
+
+/// rewrite.def of the test resources (the file the plugin loads by default): a line is trimmed; empty lines and lines
+/// starting with '#' are skipped; one column = a character exempt from normalisation, two columns = a replacement rule
+fn e2e_rewrite_def() -> (Vec<(String, String)>, Vec<char>) {
+    let text = std::fs::read_to_string(res("rewrite.def")).expect("rewrite.def of the test resources");
+    let mut pairs: Vec<(String, String)> = vec![];
+    let mut ign = vec![];
+    for line in text.lines() {
+        let line = line.trim();
+        if line.is_empty() || line.starts_with('#') {
+            continue;
+        }
+        let cols: Vec<&str> = line.split_whitespace().collect();
+        match cols.len() {
+            1 => ign.extend(cols[0].chars().take(1)),
+            2 => pairs.push((cols[0].to_string(), cols[1].to_string())),
+            _ => panic!("rewrite.def: unexpected line {:?}", line),
+        }
+    }
+    (pairs, ign)
+}
+
+/// `PD_default (Nz.mkO lowers nfkcs qcno uppers) table exempt qc_text` for a plugin that sees `text`:
+/// oracle values of the characters of the text; rules whose key begins with a character of the text; exempt characters
+/// that occur in the text (no other rule can match, no other character is asked about)
+fn e2e_default_term(text: &str) -> String {
+    let set: std::collections::BTreeSet<char> = text.chars().collect();
+    let lower = |c: char| -> Vec<char> { c.to_lowercase().collect() };
+    let nfkc_of = |v: &[char]| -> Vec<char> { v.iter().cloned().nfkc().collect() };
+    let cl = |v: &[char]| clist(v.iter().map(|c| cn(*c as u32)));
+    let mut lowers = vec![];
+    let mut nf: std::collections::BTreeMap<Vec<char>, Vec<char>> = Default::default();
+    let mut qcno = vec![];
+    let mut uppers = vec![];
+    for &c in &set {
+        let l = lower(c);
+        if l != vec![c] {
+            lowers.push(format!("({}, {})", cn(c as u32), cl(&l)));
+        }
+        for src in [vec![c], l.clone()] {
+            let n = nfkc_of(&src);
+            if n != src {
+                nf.insert(src, n);
+            }
+        }
+        if !matches!(is_nfkc_quick(std::iter::once(c)), IsNormalized::Yes) {
+            qcno.push(cn(c as u32));
+        }
+        if c.is_uppercase() {
+            uppers.push(cn(c as u32));
+        }
+    }
+    let (pairs, ign) = e2e_rewrite_def();
+    let table = clist(
+        pairs
+            .iter()
+            .filter(|(k, _)| k.chars().next().map_or(false, |c| set.contains(&c)))
+            .map(|(k, v)| format!("({}, {})", cps_term(k), cps_term(v))),
+    );
+    let mut exempt: Vec<char> = ign.into_iter().filter(|c| set.contains(c)).collect();
+    exempt.sort();
+    exempt.dedup();
+    format!(
+        "PD_default (Nz.mkO {} {} {} {}) {} {} {}",
+        clist(lowers),
+        clist(nf.iter().map(|(k, v)| format!("({}, {})", cl(k), cl(v)))),
+        clist(qcno),
+        clist(uppers),
+        table,
+        clist(exempt.iter().map(|c| cn(*c as u32))),
+        cbool(matches!(is_nfkc_quick(text.chars()), IsNormalized::Yes))
+    )
+}
 
 fn cps_term(s: &str) -> String {
     clist(s.chars().map(|c| cn(c as u32)))
@@ -1180,12 +1256,17 @@ fn e2e_csv(rng: &mut Rng) -> (String, Vec<String>) {
     (rows.join("\n"), words)
 }
 
-fn e2e_text(rng: &mut Rng, words: &[String]) -> String {
+fn e2e_text(rng: &mut Rng, words: &[String], normalised: bool) -> String {
     let extra = ["ーー", "アイウ", "カ", "12", "1,2", "x", "に", " ", "ーーー", "キロメ", "\u{301}", "\u{3099}", "\u{301}"];
+    // what DefaultInputTextPlugin rewrites: case, compatibility forms (1 -> 1, 1 -> n, n -> 1 through rewrite.def), an
+    // exempt character, a rule whose key begins with an exempt character
+    let by_default = ["ABc", "ＡＢ", "ｶﾞ", "㍿", "Ⅲ", "１２", "½", "か゛", "ｷﾛ", "É", "ﬁ", "C", "ｰｰ", "東京ﾄ", "ﾞ"];
     loop {
         let mut s = String::new();
         for _ in 0..1 + rng.below(4) {
-            if rng.chance(2, 3) {
+            if normalised && rng.chance(2, 5) {
+                s.push_str(*rng.pick(&by_default));
+            } else if rng.chance(2, 3) {
                 s.push_str(rng.pick(words).as_str());
             } else {
                 s.push_str(*rng.pick(&extra));
@@ -1251,9 +1332,13 @@ fn e2e_case(sink: &mut Sink, dict: &JapaneseDictionary, lex_hex: &[(String, Stri
     chars.sort();
     chars.dedup();
     let cats = clist(chars.iter().map(|c| format!("({}, {})", cn(*c as u32), cn(g.character_category.get_category_types(*c).bits()))));
-    let pls = clist(st.input.iter().map(|k| {
-        assert!(*k == 1);
-        format!("PD_psm {} {}", cps_term("ー-⁓〜〰"), cps_term("ー"))
+    let pls = clist(st.input.iter().enumerate().map(|(i, k)| match *k {
+        0 => {
+            assert!(i == 0, "DefaultInputTextPlugin is modelled as the first plugin only");
+            e2e_default_term(text)
+        }
+        1 => format!("PD_psm {} {}", cps_term("ー-⁓〜〰"), cps_term("ー")),
+        _ => panic!("input-text plugin {} is not part of the end-to-end correspondence", k),
     }));
     let simple = format!("O.PSimple (O.mkOov 8 8 6000 {})", cn(pos_noun));
     let provs = if st.oov == 0 {
@@ -1300,6 +1385,10 @@ fn e2e_case(sink: &mut Sink, dict: &JapaneseDictionary, lex_hex: &[(String, Stri
     }
     sink.tag("end_to_end_model_case");
     sink.tag(&format!("e2e_mode={}", MODE_NAMES[mode as usize]));
+    sink.tag(&format!("e2e_input_plugins={:?}", st.input));
+    if st.input.first() == Some(&0) && implr.as_ref().map_or(false, |x| x.0 != text) {
+        sink.tag("e2e_text_rewritten_by_default_plugin_stack");
+    }
     if implr.as_ref().map_or(false, |x| x.0 != text) {
         sink.tag("e2e_text_rewritten");
     }
@@ -1352,7 +1441,13 @@ fn e2e_stream(sink: &mut Sink, args: &Args, rng: &mut Rng) {
             }
             _ => None,
         };
-        let st = Stack { input: if rng.chance(1, 2) { vec![1] } else { vec![] }, oov: rng.below(2) as u8, rewrite: rng.below(5) as u8 };
+        let input: Vec<u8> = match rng.below(4) {
+            0 => vec![],
+            1 => vec![1],
+            2 => vec![0],
+            _ => vec![0, 1],
+        };
+        let st = Stack { input, oov: rng.below(2) as u8, rewrite: rng.below(5) as u8 };
         let (dict, lex_hex, nwords) = match e2e_dict(&csv, user_csv.as_deref(), &st) {
             Ok(x) => x,
             Err(e) => {
@@ -1362,7 +1457,7 @@ fn e2e_stream(sink: &mut Sink, args: &Args, rng: &mut Rng) {
             }
         };
         for _ in 0..args.n(3, 6) {
-            let text = e2e_text(rng, &words);
+            let text = e2e_text(rng, &words, st.input.first() == Some(&0));
             for mode in 0..3u8 {
                 e2e_case(sink, &dict, &lex_hex, &nwords, &st, &text, mode, e2e_desc(&csv, user_csv.as_deref(), &st, &text, mode), false);
             }
